@@ -520,12 +520,12 @@ class SymTime:
 
 class Ctx:
     """mode 'sym': one execution path under a decision prefix.  mode 'conc': concrete replay from `values`."""
-    def __init__(self, prefix = (), values = None, fuel = 2000, deadline = None, qtimeout_ms = 5000, seed = 0, known = ()):
+    def __init__(self, prefix = (), values = None, fuel = 2000, deadline = None, qtimeout_ms = 5000, seed = 0, known = (), pins = None):
         self.mode = 'conc' if values is not None else 'sym'
         self.values = values or {}
         self.prefix = list(prefix); self.pos = 0; self.decisions = []
         self.fuel = fuel; self.deadline = deadline
-        self.known = set(known)
+        self.known = set(known); self.pins = pins or {}
         self.vars = {}            # name -> (kind, z3 term(s))
         self.nfresh = 0
         self.failures = []        # concrete mode: labels of failed checks; sym mode: (label, model)
@@ -645,6 +645,8 @@ class Ctx:
         """a concrete index in range(n), chosen by forking (symbolic selector)"""
         if self.mode == 'conc': return builtins.int(self.values[name])
         v = z3.Int(name); self._reg(name, 'int', v); self.add(v >= 0, v < n)
+        if name in self.pins:          # this obligation is one slice of a larger one: the selector is fixed here, the sibling slices cover the rest
+            self.add(v == self.pins[name]); return self.pins[name]
         for i in range(n - 1):
             if self.branch(v == i): return i
         return n - 1
@@ -765,7 +767,7 @@ class CheckFailed(BaseException):
 
 # --------------------------------------------------------------------------- exploration
 
-def explore(fn, max_paths = 100000, budget_s = None, fuel = 2000, qtimeout_ms = 5000, seed = 0, known = (), stop_on_first = True):
+def explore(fn, max_paths = 100000, budget_s = None, fuel = 2000, qtimeout_ms = 5000, seed = 0, known = (), stop_on_first = True, pins = None):
     """run harness fn(ctx) over all feasible paths.  Returns a summary dict."""
     global CUR
     t0 = time.time(); deadline = None if budget_s is None else t0 + budget_s
@@ -778,7 +780,7 @@ def explore(fn, max_paths = 100000, budget_s = None, fuel = 2000, qtimeout_ms = 
         if deadline is not None and time.time() > deadline:
             res['complete'] = False; res['inconclusive'].append('time budget exhausted with %d prefixes pending' % len(stack)); break
         prefix = stack.pop()
-        c = Ctx(prefix, fuel = fuel, deadline = deadline, qtimeout_ms = qtimeout_ms, seed = seed, known = known); CUR = c
+        c = Ctx(prefix, fuel = fuel, deadline = deadline, qtimeout_ms = qtimeout_ms, seed = seed, known = known, pins = pins); CUR = c
         res['paths'] += 1
         try:
             fn(c); res['ok_paths'] += 1
@@ -797,6 +799,7 @@ def explore(fn, max_paths = 100000, budget_s = None, fuel = 2000, qtimeout_ms = 
             # artefact of running on proxies (C boundary etc.) and the obligation is inconclusive.
             import traceback
             tb = traceback.extract_tb(e.__traceback__)
+            if not any('/pyg_base/' in f.filename for f in tb): raise      # raised by the harness itself, not by the code under test: harness bug
             where = '%s:%d' % (tb[-1].filename.split('/')[-1], tb[-1].lineno) if tb else '?'
             label = 'unexpected-exception:%s' % type(e).__name__
             try:
